@@ -4,8 +4,8 @@ from .. import env, coq, runner, tables
 
 LEVEL = 'proof'
 META = dict(
-    text='Coq theorems, for every completion schedule, every next_job oracle and every fault sequence (universally quantified lists, proved by invariants and induction): the collector loop never exceeds the concurrency, starts nothing once the budget is used, delivers every completed result exactly once to on_job_result with the right job, never blocks with nothing in flight and halts only when idle and out of work, and the exception it raises is the failure of one of the jobs; the stream client routes a response to the waiter of its message id only, completes a submit future only through an event of its own job (its own response, the failure of its stream, its own cancellation, stop()) so that a late reply for a cancelled request completes nobody, sends cancel_quantum_job in exactly the steps in which a submit future ends cancelled and cancels a running submit (future cancelled, remote job cancelled) at every cancellation point - cancel() while idle, while a reply of any content or a stream failure of any kind is being delivered to it, stop() -, hands the response to the current request of a waiting execution to that execution in the same step, never reuses an id, creates the job at most once, returns only that job\'s result, terminates after finitely many retryable faults and surfaces non-retryable errors. The retry decision function is regenerated from _get_retry_request_or_raise/_is_retryable_error on every run; both hand-written models are compared event by event with the implementation under a deterministic driver of the duet scheduler and of an asyncio loop.',
-    note='Trusted: Coq kernel; the Python drivers in vf/checks/c20.py (fake Sampler, fake Quantum Engine stream and server, hand-driven duet scheduler / asyncio loop, trace printing); vf/tables_c20.py (evaluating the retry functions on the working tree). The duet and asyncio runtimes, the thread hand-off of AsyncioExecutor and the behaviour of the real gRPC layer are driven, not verified: theorems are about the models, the models are tied to the code by the regenerated retry table and by the trace comparison on enumerated/sampled schedules.',
+    text='Coq theorems, for every completion schedule, every next_job oracle and every fault sequence (universally quantified lists, proved by invariants and induction): the collector loop never exceeds the concurrency, starts nothing once the budget is used, delivers every completed result exactly once to on_job_result with the right job, never blocks with nothing in flight and halts only when idle and out of work, and the exception it raises is the failure of one of the jobs; the stream client routes a response to the waiter of its message id only, completes a submit future only through an event of its own job (its own response, the failure of its stream, its own cancellation, stop()) so that a late reply for a cancelled request completes nobody, sends cancel_quantum_job in exactly the steps in which a submit future ends cancelled and cancels a running submit (future cancelled, remote job cancelled) at every cancellation point - cancel() while idle, while a reply of any content or a stream failure of any kind is being delivered to it, stop() -, hands the response to the current request of a waiting execution to that execution in the same step, never reuses an id, creates the job at most once, returns only that job\'s result, terminates after finitely many retryable faults and surfaces non-retryable errors; every already-exists / does-not-exist reply that makes sense for the request it answers is answered by the right next request (JOB_ALREADY_EXISTS to either create request -> get the result, ...), the model server answers with nothing else, and hence along every event sequence in which the server answers from its state no submit ever ends in a StreamError. ProcessorSampler(max_concurrent_jobs): for every run of callers, job creations, job completions and returns accepted by the model of duet.Limiter + _run_sweep_async, the unfinished jobs never exceed the limit provided no caller arrives between a release and the resumption of the woken waiter (the unconditional statement is refuted by a witness that the check replays), every caller\'s job is created once and its own outcome returned to it once, no caller is lost, nobody waits while a slot is free, and the run can always go on. The retry decision function is regenerated from _get_retry_request_or_raise/_is_retryable_error on every run; both hand-written models are compared event by event with the implementation under a deterministic driver of the duet scheduler and of an asyncio loop.',
+    note='Trusted: Coq kernel; the Python drivers in vf/checks/c20.py (fake Sampler, fake Quantum Engine stream and server, hand-driven duet scheduler / asyncio loop, trace printing); vf/tables_c20.py (evaluating the retry functions on the working tree). The model processor / job objects and the observing subclass of ProcessorSampler (run_sweep_async delegates to super()). The duet and asyncio runtimes, the thread hand-off of AsyncioExecutor and the behaviour of the real gRPC layer are driven, not verified: theorems are about the models, the models are tied to the code by the regenerated retry table and by the trace comparison on enumerated/sampled schedules.',
     technique='Rocq/Coq proof over executable Gallina state machines + regenerated decision table + vm_compute trace correspondence under a deterministic event-loop driver',
 )
 
@@ -966,8 +966,22 @@ def drain_event(run):
     return None
 
 
-def run_stream_case(mods, pre_progs, pre_jobs, fails, chooser, drain=False):
+def job_first(run, ev):
+    """The server flavour that reports the most specific conflict: a create-program-and-job request for a job that exists is
+    answered JOB_ALREADY_EXISTS even when the program exists as well (state unchanged). For the model that is the event
+    RejectReq k JOB_ALREADY_EXISTS."""
+    if ev is not None and ev[0] == 'Process' and ev[1] < len(run.wire):
+        _, _, _, kind, pj, _ = run.wire[ev[1]]
+        if kind == 'CreateProgJob' and pj[1] in run.jobs:
+            return ('RejectReq', ev[1], 'JOB_ALREADY_EXISTS')
+    return ev
+
+
+def run_stream_case(mods, pre_progs, pre_jobs, fails, chooser, drain=False, conflict='program'):
     """chooser(run) -> next event or None. Returns the observation record of the whole run.
+
+    conflict: which conflict the server reports for a create-program-and-job request when program and job both exist:
+    'program' (PROGRAM_ALREADY_EXISTS) or 'job' (JOB_ALREADY_EXISTS, see job_first).
 
     drain: after the chooser's events the server is left undisturbed (every request handled, every response delivered, oldest
     first) and every submit still running must then finish (with an outcome the step oracles accept: its own)."""
@@ -985,10 +999,12 @@ def run_stream_case(mods, pre_progs, pre_jobs, fails, chooser, drain=False):
                 ev = drain_event(run) if len(events) < budget else None
             if ev is None:
                 break
+            if conflict == 'job':
+                ev = job_first(run, ev)
             before = [e for e in range(len(run.futs)) if run.running(e)]
             run.apply(ev)
             events.append(ev)
-            checks += stream_step_oracles(run, ev, before)
+            checks += stream_step_oracles(run, ev, before, events)
         checks += stream_final_oracles(run)
         if drain:
             for e in waiting:
@@ -1002,10 +1018,21 @@ def run_stream_case(mods, pre_progs, pre_jobs, fails, chooser, drain=False):
     return dict(pre_progs=sorted(pre_progs), pre_jobs=sorted(pre_jobs), fails=sorted(fails), events=events,
                 reqs=run.reqs, replies=run.replies, dones=[(s, e, o[:2]) for s, e, o in run.dones], cancels=run.cancels,
                 subs=run.subs, creates=run.creates, anomalies=run.anomalies, bad=checks,
-                drain=(n_script if drain else None))
+                drain=(n_script if drain else None), conflict=conflict)
 
 
-def stream_step_oracles(run, ev, before):
+# what a reply about the existence of the program / the job means for the request it answers, and hence which next request
+# is right (reference semantics of the codes, independent of the implementation's table): the job exists -> fetch its result;
+# the program exists -> fetch the result (the job may exist too) or create the job; the job does not exist -> create it; the
+# program does not exist -> create program and job. Other (kind, code) pairs make no sense for that request and may be raised.
+RIGHT_NEXT = {('CreateProgJob', 'JOB_ALREADY_EXISTS'): ('GetResult',),
+              ('CreateJob', 'JOB_ALREADY_EXISTS'): ('GetResult',),
+              ('CreateProgJob', 'PROGRAM_ALREADY_EXISTS'): ('GetResult', 'CreateJob'),
+              ('CreateJob', 'PROGRAM_DOES_NOT_EXIST'): ('CreateProgJob',),
+              ('GetResult', 'JOB_DOES_NOT_EXIST'): ('CreateJob', 'CreateProgJob')}
+
+
+def stream_step_oracles(run, ev, before, history=()):
     """The property's statement on the real run, step by step (no model involved)."""
     from .. import tables_c20
     bad = []
@@ -1097,6 +1124,24 @@ def stream_step_oracles(run, ev, before):
             if not served:
                 bad.append(('undelivered', f'the reply {payload} to message {mid}, the current request of submit {e}, was put on the '
                                            f'stream but submit {e} neither finished with it nor sent a next request (got {o})'))
+            # after an 'already exists / does not exist' reply the client re-sends the right request (it does not give up): the
+            # submitter is to receive its job's result
+            kind_of = [kind for s, x, m, kind in run.reqs if m == mid]
+            right = RIGHT_NEXT.get((kind_of[0], payload[1])) if payload[0] == 'err' and kind_of else None
+            if right is not None:
+                nxt = [kind for x, _, kind in reqs_now if x == e]
+                exists = (f'job j{e} exists on the server (created {run.creates.count(e)} time(s) by this client'
+                          f'{", present before" if e in run.pre_jobs0 else ""})' if e in run.jobs
+                          else f'job j{e} does not exist on the server')
+                if o is not None:
+                    got = 'raised StreamError(' + o[1] + ')' if o[0] == 'stream' else f'finished with {o[:2]}'
+                    bad.append(('state-reply', f'the server answered {payload[1]} to the {kind_of[0]} request (message {mid}) of submit {e} '
+                                               f'and submit {e} {got} instead of re-sending {" or ".join(right)}: the submitter does '
+                                               f'not receive the result of its job although {exists}; history: {list(history)}'))
+                elif nxt and nxt[-1] not in right:
+                    bad.append(('state-reply', f'the server answered {payload[1]} to the {kind_of[0]} request (message {mid}) of submit {e} '
+                                               f'and the client re-sent {nxt[-1]} instead of {" or ".join(right)} ({exists}); '
+                                               f'history: {list(history)}'))
     # every execution still running has its current request subscribed and in flight (nothing lost)
     subs = run.subs[-1]
     inflight = {w[1] for w in run.wire if w[5]} | {mid for mid, _, _ in run.pending}
@@ -1297,8 +1342,11 @@ def enumerate_stream(mods, pre_progs, pre_jobs, max_submits, depth, limit):
     return out, complete
 
 
-def fault_case(mods, rng, sprog, sjob, faults):
-    """Part A: one submit along a fault sequence; events are derived from the faults while the execution runs."""
+def fault_case(mods, rng, sprog, sjob, faults, conflict='program'):
+    """Part A: one submit along a fault sequence; events are derived from the faults while the execution runs.
+
+    conflict='job': the server reports JOB_ALREADY_EXISTS for a create-program-and-job request whose job exists (also when the
+    program exists); an undisturbed exchange that meets this conflict is the model's fault Reject JOB_ALREADY_EXISTS."""
     it = iter(faults)
     todo = []
     n = [0]
@@ -1317,7 +1365,10 @@ def fault_case(mods, rng, sprog, sjob, faults):
         live = len(run.wire) - 1          # the current request is the last one on the wire, the overtaken ones precede it
         if f[0] == 'NoFault':
             todo.append(('Respond', 0))
-            return ('Process', live)
+            ev = job_first(run, ('Process', live)) if conflict == 'job' else ('Process', live)
+            if ev[0] == 'RejectReq':
+                used[-1] = ('Reject', ev[2])
+            return ev
         if f[0] == 'Reject':
             todo.append(('Respond', 0))
             return ('RejectReq', live, f[1])
@@ -1327,8 +1378,8 @@ def fault_case(mods, rng, sprog, sjob, faults):
             return ('Process', f[1] if f[1] < live else 99)
         todo.append(('Break', f[1]))
         return ('Process', live)
-    c = run_stream_case(mods, [0] if sprog else [], [0] if sjob else [], (), chooser)
-    c['faults'] = used[:len(faults)]
+    c = run_stream_case(mods, [0] if sprog else [], [0] if sjob else [], (), chooser, conflict=conflict)
+    c['faults'] = used[:max(len(faults), max([i + 1 for i, f in enumerate(used) if f[0] != 'NoFault'], default=0))]
     c['sprog'], c['sjob'] = sprog, sjob
     if not c['dones']:
         c['bad'].append(('termination', f'the execution did not finish within 6 undisturbed exchanges after the faults {list(faults)} '
@@ -1340,7 +1391,7 @@ def symbolic_chooser(ops):
     """Events named by the execution they concern; the positions on the wire / among the responses are looked up in the run.
 
     ('submit', p) ('process', e) ('reject', e, code) ('respond', e) ('respondcancel', e) ('cancel', e) ('break', X)
-    ('breakcancel', X, e) ('stop',) ('stop', e, 'before'|'after').
+    ('breakcancel', X, e) ('stop',) ('stop', e, 'before'|'after') ('late', e).
     process/reject address the live (current stream) request of e, respond/respondcancel the outstanding response to e."""
     it = iter(ops)
 
@@ -1357,6 +1408,10 @@ def symbolic_chooser(ops):
                 idx = [i for i, (mid, _, _) in enumerate(run.pending) if run.owner.get(mid) == op[1]]
                 if idx:
                     return ('Respond' if k == 'respond' else 'RespondCancel', idx[-1])
+            elif k == 'late':          # the server handles the oldest request of e that was overtaken by a stream break
+                idx = [i for i, w in enumerate(run.wire) if w[4][1] == op[1] and not w[5]]
+                if idx:
+                    return ('Process', idx[0])
             elif k == 'cancel':
                 return ('Cancel', op[1])
             elif k == 'break':
@@ -1442,6 +1497,52 @@ def cancel_race_grid(quick):
     return out
 
 
+def recreate_fault_grid():
+    """Part A, fixed grid: the stream breaks with the create request (and possibly the next requests) unhandled, the client
+    re-creates step by step (get-result -> create-job -> create-program-and-job), and the overtaken requests are handled late,
+    after 0..4 exchanges of that retry chain - in particular just before the re-sent create arrives."""
+    out = []
+    for x in ('ServiceUnavailable', 'InternalServerError'):
+        for breaks in (1, 2):
+            for lates in range(1, breaks + 1):
+                for i in range(5):
+                    out.append([('BreakBefore', x)] * breaks + [('NoFault',)] * i + [('Late', 0)] * lates + [('NoFault',)] * (4 - i))
+        for i in range(4):       # a second break in the middle of the retry chain: its request is overtaken as well
+            out.append([('BreakBefore', x), ('NoFault',), ('BreakBefore', x)] + [('NoFault',)] * i + [('Late', 0), ('Late', 0)]
+                       + [('NoFault',)] * (4 - i))
+    return out
+
+
+def recreate_race_grid(quick):
+    """Manager, fixed grid: n submits (own / shared program); the stream breaks before the server handled submit v's create
+    request (the others untouched as well, or already finished); v's retry chain runs for `late_at` exchanges, then the
+    overtaken create is handled, then the undisturbed server. And resubmission: the job (and its program) exist on the server
+    before the submit. Both server flavours. Yields (params, pre_progs, pre_jobs, ops, conflict)."""
+    out = []
+    for conflict in ('program', 'job'):
+        for n in (1, 2):
+            for shared in ((False,) if n == 1 else (False, True)):
+                for v in range(n):
+                    for others in (('untouched',) if n == 1 else ('untouched', 'done')):
+                        for late_at in range(5):
+                            ops = [('submit', 0 if shared else e) for e in range(n)]
+                            if others == 'done':
+                                ops += [op for e in range(n) if e != v for op in (('process', e), ('respond', e))]
+                            ops += [('break', 'ServiceUnavailable')]
+                            for i in range(5):
+                                if i == late_at:
+                                    ops += [('late', v)]
+                                ops += [('process', v), ('respond', v)]
+                            out.append((dict(n=n, victim=v, shared=shared, others=others, late_at=late_at), [], [], ops, conflict))
+        for n in (1, 2):
+            for pre_progs, pre_jobs in (([0], [0]), ([], [0]), ([0], [0, 1])):
+                ops = [('submit', 0) for _ in range(n)]
+                out.append((dict(n=n, resubmitted=pre_jobs), pre_progs, pre_jobs, ops, conflict))
+                out.append((dict(n=n, resubmitted=pre_jobs, broken=True), pre_progs, pre_jobs,
+                            ops + [('break', 'Unknown'), ('late', 0)], conflict))
+    return out
+
+
 def _lit_fault(f):
     if f[0] == 'NoFault':
         return 'NoFault'
@@ -1496,12 +1597,21 @@ def stream_streams(ctx, mods):
         for L in range(depth + 1):
             for fs in itertools.product(alphabet, repeat=L):
                 fcases.append(fault_case(mods, rng, sprog, sjob, fs))
+    # the server that reports the job-level conflict first: it differs where program and job both exist
+    for L in range(depth + 1):
+        for fs in itertools.product(alphabet, repeat=L):
+            fcases.append(fault_case(mods, rng, True, True, fs, conflict='job'))
+    # fixed grid, every seed: the overtaken create request is handled late, at every point of the client's re-creation chain
+    for conflict in ('program', 'job'):
+        for sprog, sjob in ((False, False), (True, False)):
+            for fs in recreate_fault_grid():
+                fcases.append(fault_case(mods, rng, sprog, sjob, fs, conflict=conflict))
     for _ in range(150 if quick else 3000):
         L = rng.randint(3, 8)
         fs = [rng.choice(alphabet + [('BreakBefore', x) for x in RETRYABLE] + [('BreakAfter', x) for x in RETRYABLE]
                          + [('BreakAfter', rng.choice(FATAL)), ('Reject', rng.choice(OTHER_CODES)), ('Late', 0), ('Late', 1)])
               for _ in range(L)]
-        fcases.append(fault_case(mods, rng, rng.random() < 0.4, rng.random() < 0.25, fs))
+        fcases.append(fault_case(mods, rng, rng.random() < 0.4, rng.random() < 0.25, fs, conflict=rng.choice(['program', 'job'])))
     for c in fcases:
         c['stream'] = 'stream_faults'
     # (B) the manager: enumerated interleavings + random schedules
@@ -1522,15 +1632,24 @@ def stream_streams(ctx, mods):
         c['stream'] = 'stream_cancel_race'
         c['params'] = params
         mcases.append(c)
+    # (C2) fixed grid, every seed: the create request overtaken by a stream break is handled while the client re-creates;
+    #      resubmission of an existing job; both server flavours; then the undisturbed server
+    for params, pre_progs, pre_jobs, ops, conflict in recreate_race_grid(quick):
+        c = run_stream_case(mods, pre_progs, pre_jobs, [], symbolic_chooser(ops), drain=True, conflict=conflict)
+        c['stream'] = 'stream_recreate_race'
+        c['params'] = params
+        mcases.append(c)
     for _ in range(500 if quick else 8000):
         pre_progs = [p for p in (0, 1) if rng.random() < 0.25]
         pre_jobs = [e for e in (0, 1, 2) if rng.random() < 0.12]
         fails = [e for e in (0, 1, 2, 3) if rng.random() < 0.15]
         c = run_stream_case(mods, pre_progs, pre_jobs, fails, random_stream_chooser(rng, rng.choice([1, 2, 3, 3, 4]), rng.randint(4, 16)),
-                            drain=rng.random() < 0.5)
+                            drain=rng.random() < 0.5, conflict=rng.choice(['program', 'job']))
         c['stream'] = 'stream_random'
         mcases.append(c)
-    for c in fcases + mcases:
+    # report a state reply that is backed by the server's state (the job really exists) before one that is not
+    backed = lambda c: any(k == 'state-reply' and ' exists on the server' in w for k, w in c['bad'])
+    for c in sorted(fcases + mcases, key=lambda c: not backed(c)):
         nfault = sum(1 for e in c['events'] if e[0] in ('Break', 'BreakCancel', 'RejectReq', 'Cancel', 'RespondCancel', 'Stop'))
         nontrivial = (len(c['faults']) >= 1) if 'faults' in c else (len(c['reqs']) >= 2 and nfault >= 1)
         ctx.count(c['stream'], (c['pre_progs'], c['pre_jobs'], c['fails'], c['events']), nontrivial=nontrivial,
@@ -1540,7 +1659,8 @@ def stream_streams(ctx, mods):
             extra = dict(kind='stream_faults', faults=c['faults'], sprog=c['sprog'], sjob=c['sjob']) if 'faults' in c else {}
             ctx.violation(f'stream:{kind}', f'StreamManager: {what}',
                           dict(dict(kind='stream', pre_progs=c['pre_progs'], pre_jobs=c['pre_jobs'], fails=c['fails'],
-                                    events=c['events'], drain=c.get('drain'), failed=kind), **extra))
+                                    events=c['events'], drain=c.get('drain'), conflict=c.get('conflict', 'program'), failed=kind),
+                               **extra))
     for idx in fault_compare(ctx, fcases):
         c = fcases[idx]
         ctx.mark_broken('correspondence:stream_faults',
@@ -1557,19 +1677,448 @@ def stream_streams(ctx, mods):
 def replay_stream(mods, data):
     if data.get('kind') == 'stream_faults':
         import random
-        c = fault_case(mods, random.Random(0), data['sprog'], data['sjob'], [tuple(f) for f in data['faults']])
+        c = fault_case(mods, random.Random(0), data['sprog'], data['sjob'], [tuple(f) for f in data['faults']],
+                       conflict=data.get('conflict', 'program'))
         print('requests:', c['reqs'])
         print('outcomes:', c['dones'], 'oracle failures:', c['bad'])
         return not c['bad']
     evs = [tuple(e) for e in data['events']]
     drain = data.get('drain')
     it = iter(evs if drain is None else evs[:drain])      # a drained case: the scripted prefix, then the undisturbed server again
-    c = run_stream_case(mods, data['pre_progs'], data['pre_jobs'], data['fails'], lambda run: next(it, None), drain=drain is not None)
+    c = run_stream_case(mods, data['pre_progs'], data['pre_jobs'], data['fails'], lambda run: next(it, None), drain=drain is not None,
+                        conflict=data.get('conflict', 'program'))
     print('events:', c['events'])
     print('requests:', c['reqs'])
     print('outcomes:', c['dones'], 'cancel rpcs:', c['cancels'])
     print('oracle failures:', c['bad'])
     return not c['bad']
+
+
+# ======================================================================================================================
+# ProcessorSampler(max_concurrent_jobs): the real sampler on a hand-ticked duet scheduler, a model processor behind it
+# ======================================================================================================================
+
+
+class _JobFailed(Exception):
+    """What results_async() of a failed model job raises; carries the job number."""
+
+    def __init__(self, j):
+        super().__init__(f'engine-job-{j}-failed')
+        self.j = j
+
+
+class _JobResult:
+    """The result of one circuit of model job j."""
+
+    def __init__(self, j, circ):
+        self.j, self.circ = j, circ
+
+    def __repr__(self):
+        return f'result(job {self.j}, circuit {self.circ})'
+
+
+def run_sampler(mods, limit, turns, jobs_per_batch=1):
+    """cirq_google.ProcessorSampler(max_concurrent_jobs=limit) in front of a model processor whose jobs stay unfinished until
+    the driver finishes them. `turns`: list of turns; the actions of a turn are applied at a quiescent point (no duet task
+    ready), then the scheduler runs until the next quiescent point:
+      ('batch', n)           a new caller awaits sampler.run_batch_async(n fresh circuits)
+      ('call',)              a new caller awaits sampler.run_async(a fresh circuit)
+      ('collect', conc, n)   a new caller awaits Collector.collect_async(sampler, concurrency=conc); next_job hands out n jobs
+      ('finish', k)          the engine finishes the k-th unfinished job (creation order): results_async() completes
+      ('fail', k)            ... the job fails: results_async() raises (only for jobs of ('call',) callers, else = finish)
+    After the turns the engine finishes the oldest unfinished job, one per turn, until none is left.
+    Returns dict(trace, applied, tops, deliveries, peaks, idle, circuits_of_call)."""
+    import duet
+    from duet import impl
+    cirq, cg = mods['cirq'], mods['cirq_google']
+    trace = []            # ('call', i) ('create', i, j) ('finish', j, ok) ('return', i, j, ok)
+    calls = []            # call i -> circuit numbers
+    call_of_circ = {}
+    kind_of_circ = {}     # circuit number -> top-level caller (t, kind)
+    jobs, unfinished = [], []
+    peaks = []            # (position in the trace, unfinished jobs) whenever a job is created
+    idle = []             # quiescent points at which a caller waits for a slot although fewer than `limit` jobs are unfinished
+    deliveries = []       # ('collector', t, tag circuit, result)
+    q = cirq.LineQubit(0)
+    ncirc = [0]
+
+    def new_circuit(owner):
+        n = ncirc[0]
+        ncirc[0] += 1
+        kind_of_circ[n] = owner
+        return cirq.Circuit(cirq.measure(q, key=f'c{n}'))
+
+    def circ_no(c):
+        return int(sorted(cirq.measurement_key_names(c))[0][1:])
+
+    def numbers(program):
+        if isinstance(program, dict):
+            return [circ_no(c) for c in program.values()]
+        if isinstance(program, (list, tuple)):
+            return [circ_no(c) for c in program]
+        return [circ_no(program)]
+
+    class MJob:
+        def __init__(self, j, circs):
+            self.j, self.circs, self.f = j, circs, duet.AwaitableFuture()
+
+        async def results_async(self):
+            return await self.f
+
+    class MProcessor:
+        async def run_sweep_async(self, program, params, repetitions, **kw):
+            nums = numbers(program)
+            job = MJob(len(jobs), nums)
+            jobs.append(job)
+            unfinished.append(job)
+            trace.append(('create', call_of_circ.get(nums[0], -1), job.j))
+            peaks.append((len(trace), len(unfinished)))
+            return job
+
+    class Observed(cg.ProcessorSampler):
+        """run_sweep_async unchanged; the call and its outcome are recorded."""
+
+        async def run_sweep_async(self, program, params, repetitions=1):
+            nums = numbers(program)
+            i = len(calls)
+            calls.append(nums)
+            for n in nums:
+                call_of_circ[n] = i
+            trace.append(('call', i))
+            try:
+                r = await super().run_sweep_async(program, params, repetitions)
+            except _JobFailed as e:
+                trace.append(('return', i, e.j, False))
+                raise
+            trace.append(('return', i, r[0].j if len(r) and isinstance(r[0], _JobResult) else -1, True))
+            return r
+
+    sampler = Observed(processor=MProcessor(), max_concurrent_jobs=limit, jobs_per_batch=jobs_per_batch)
+    sch = impl.Scheduler()
+    tops = []             # per top-level caller: dict(kind, circuits, outcome)
+
+    def spawn(kind, make, circuits, **info):
+        t = len(tops)
+        rec = dict(kind=kind, circuits=circuits, outcome=None, **info)
+        tops.append(rec)
+
+        async def top():
+            try:
+                rec['outcome'] = ('ok', await make(t))
+            except Exception as e:  # noqa: BLE001
+                rec['outcome'] = ('err', e)
+        sch.spawn(top())
+
+    def apply(action):
+        k = action[0]
+        if k == 'batch':
+            t = len(tops)
+            cs = [new_circuit((t, 'batch')) for _ in range(action[1])]
+            spawn('batch', lambda t: sampler.run_batch_async(cs, repetitions=2), [circ_no(c) for c in cs])
+        elif k == 'call':
+            t = len(tops)
+            c = new_circuit((t, 'call'))
+            spawn('call', lambda t: sampler.run_async(c, repetitions=2), [circ_no(c)])
+        elif k == 'collect':
+            t = len(tops)
+            conc, n = action[1], action[2]
+            handed = []
+
+            class Col(cirq.Collector):
+                def next_job(self):
+                    if len(handed) >= n:
+                        return None
+                    c = new_circuit((t, 'collect'))
+                    handed.append(circ_no(c))
+                    return cirq.CircuitSampleJob(c, repetitions=2, tag=circ_no(c))
+
+                def on_job_result(self, job, result):
+                    deliveries.append(('collector', t, job.tag, result))
+            spawn('collect', lambda t: Col().collect_async(sampler, concurrency=conc), handed, conc=conc, n=n)
+        elif k in ('finish', 'fail'):
+            if not unfinished:
+                return None
+            idx = action[1] % len(unfinished)         # negative: counted from the youngest
+            job = unfinished.pop(idx)
+            ok = k == 'finish' or kind_of_circ[job.circs[0]][1] != 'call'
+            trace.append(('finish', job.j, ok))
+            if ok:
+                job.f.set_result([_JobResult(job.j, c) for c in job.circs])
+            else:
+                job.f.set_exception(_JobFailed(job.j))
+            return ('finish' if ok else 'fail', idx)
+        else:
+            raise ValueError(action)
+        return action
+
+    def waiting_calls():
+        created = {ev[1] for ev in trace if ev[0] == 'create'}
+        live = [t for t in tops if t['outcome'] is None]
+        live_circs = {c for t in live for c in t['circuits']}
+        return [i for i in range(len(calls)) if i not in created and calls[i][0] in live_circs]
+
+    applied = []
+    it = iter(turns)
+    exhausted = False
+    for _ in range(20000):
+        if sch._ready_tasks._tasks:
+            sch.tick()
+            continue
+        # quiescent point
+        if waiting_calls() and len(unfinished) < limit:
+            idle.append((len(trace), len(unfinished), waiting_calls()))
+        turn = None if exhausted else next(it, None)
+        if turn is None:
+            exhausted = True
+            if not unfinished:
+                break
+            turn = [('finish', 0)]
+        applied.append([a for a in (apply(x) for x in turn) if a is not None])
+    else:
+        raise RuntimeError('sampler driver does not settle')
+    pending_tops = [t for t, rec in enumerate(tops) if rec['outcome'] is None]
+    # tear down whatever is still alive
+    for task in list(sch.active_tasks):
+        task.interrupt(None, RuntimeError('driver teardown'))
+    for _ in range(50):
+        if not sch.active_tasks:
+            break
+        try:
+            sch.tick()
+        except BaseException:  # noqa: BLE001
+            pass
+    return dict(limit=limit, jobs_per_batch=jobs_per_batch, turns=[list(t) for t in turns], applied=applied, trace=trace,
+                calls=calls, tops=tops, deliveries=deliveries, peaks=peaks, idle=idle, pending_tops=pending_tops,
+                job_circs=[j.circs for j in jobs])
+
+
+def sampler_racing(applied):
+    """A caller arrives in the same scheduler turn as (after) a job completion: it may run before the waiter that the completing
+    job's caller releases."""
+    for turn in applied:
+        seen = False
+        for a in turn:
+            if a[0] in ('finish', 'fail'):
+                seen = True
+            elif seen:
+                return True
+    return False
+
+
+def sampler_oracles(c):
+    """The property's statement on the real run (no model involved). Returns [(kind, what)]."""
+    bad = []
+    limit, trace = c['limit'], c['trace']
+    racing = sampler_racing(c['applied'])
+    # bounded concurrency: never more unfinished jobs on the processor than max_concurrent_jobs
+    over = [(pos, n) for pos, n in c['peaks'] if n > limit]
+    if over:
+        pos, n = max(over, key=lambda x: x[1])
+        bad.append(('bounded-race' if racing else 'bounded',
+                    f'{n} unfinished jobs on the processor at once with max_concurrent_jobs={limit} (after {trace[:pos]})'))
+    # ... and a Collector on top never has more than its own concurrency in flight
+    for t, rec in enumerate(c['tops']):
+        if rec['kind'] == 'collect':
+            mine = set(rec['circuits'])
+            cur = peak = 0
+            job_of = {}
+            for ev in trace:
+                if ev[0] == 'create' and ev[1] >= 0 and c['calls'][ev[1]][0] in mine:
+                    job_of[ev[2]] = True
+                    cur += 1
+                    peak = max(peak, cur)
+                elif ev[0] == 'finish' and ev[1] in job_of:
+                    cur -= 1
+            if peak > rec['conc']:
+                bad.append(('collector-bound', f'{peak} unfinished jobs of one Collector with concurrency={rec["conc"]}'))
+    # every call creates exactly one job; nobody waits for a slot while slots are free; everything completes in the end
+    creates = [ev for ev in trace if ev[0] == 'create']
+    per_call = {}
+    for ev in creates:
+        per_call[ev[1]] = per_call.get(ev[1], 0) + 1
+    for i, n in per_call.items():
+        if i < 0 or n != 1:
+            bad.append(('exactly-once', f'{n} jobs were created for call {i} (circuits {c["calls"][i] if i >= 0 else "?"})'))
+    if c['idle']:
+        pos, n, who = c['idle'][0]
+        bad.append(('progress', f'calls {who} wait for a slot although only {n} of {limit} jobs are unfinished (after {trace[:pos]})'))
+    if c['pending_tops']:
+        bad.append(('progress', f'callers {c["pending_tops"]} never finished although every job on the processor finished'))
+    # routing: every caller receives the results of its own circuits, exactly once
+    rets = {}
+    for ev in trace:
+        if ev[0] == 'return':
+            if ev[1] in rets:
+                bad.append(('exactly-once', f'call {ev[1]} returned twice'))
+            rets[ev[1]] = ev
+            made = [x for x in creates if x[2] == ev[2]]
+            if not made or made[0][1] != ev[1]:
+                bad.append(('routing', f'call {ev[1]} (circuits {c["calls"][ev[1]]}) received the outcome of job {ev[2]}, which was '
+                                       f'created for call {made[0][1] if made else "nobody"}'))
+            fin = [x for x in trace if x[0] == 'finish' and x[1] == ev[2]]
+            if not fin or fin[0][2] != ev[3]:
+                bad.append(('routing', f'call {ev[1]} {"returned" if ev[3] else "raised"} for job {ev[2]} which the engine '
+                                       f'{"finished " + ("ok" if fin[0][2] else "with a failure") if fin else "has not finished"}'))
+    failed_circs = {x for ev in trace if ev[0] == 'finish' and not ev[2] for x in c['job_circs'][ev[1]]}
+    for t, rec in enumerate(c['tops']):
+        if rec['outcome'] is None:
+            continue
+        tag, val = rec['outcome']
+        if rec['kind'] == 'batch':
+            want = rec['circuits']
+            got = None
+            if tag == 'ok':
+                try:
+                    got = [[r.circ for r in per] for per in val]
+                except Exception:  # noqa: BLE001
+                    got = repr(val)
+            if got != [[n] for n in want]:
+                bad.append(('routing', f'run_batch_async of circuits {want} returned {got if tag == "ok" else repr(val)}'))
+        elif rec['kind'] == 'call':
+            n = rec['circuits'][0]
+            if n in failed_circs:
+                ok = tag == 'err' and isinstance(val, _JobFailed) and c['job_circs'][val.j] == [n]
+            else:
+                ok = tag == 'ok' and isinstance(val, _JobResult) and val.circ == n
+            if not ok:
+                bad.append(('routing', f'run_async of circuit {n} ended with {val!r} '
+                                       f'({"its job failed" if n in failed_circs else "its job finished"})'))
+        else:
+            got = [(tg, r.circ if isinstance(r, _JobResult) else repr(r)) for k, tt, tg, r in c['deliveries'] if tt == t]
+            if tag != 'ok' or sorted(got) != [(n, n) for n in sorted(rec['circuits'])] or len(rec['circuits']) != rec['n']:
+                bad.append(('routing', f'Collector over {rec["n"]} jobs (circuits {rec["circuits"]}): on_job_result received (job, result '
+                                       f'circuit) {got}, collect_async ended with {rec["outcome"]}'))
+    return bad
+
+
+def _lit_lev(ev):
+    b = lambda x: 'true' if x else 'false'
+    n = lambda x: x if x >= 0 else 999999
+    if ev[0] == 'call':
+        return f'LCall {ev[1]}'
+    if ev[0] == 'create':
+        return f'LCreate {n(ev[1])} {ev[2]}'
+    if ev[0] == 'finish':
+        return f'LFinish {ev[1]} {b(ev[2])}'
+    return f'LReturn {ev[1]} {n(ev[2])} {b(ev[3])}'
+
+
+SAMPLER_HEADER = ('From Coq Require Import List Bool.\nFrom VF Require Import Base.Harness Async.Limiter.\n'
+                  'Import ListNotations.\n')
+
+
+def sampler_compare(ctx, cases):
+    bad = []
+    for lo in range(0, len(cases), 400):
+        shard = cases[lo:lo + 400]
+        text = SAMPLER_HEADER + 'Definition cases : list (nat * list lev) := [\n'
+        text += ';\n'.join(f'({c["limit"]}, [' + '; '.join(_lit_lev(e) for e in c['trace']) + '])' for c in shard) + '].\n'
+        text += 'Eval vm_compute in failing lagrees cases.\n'
+        vals = coq.parse_evals(coq.coq_eval(f'c20_sampler_{ctx.seed}_{lo}', text))
+        bad += [lo + i for i in coq.parse_nat_list(vals[0])]
+    return bad
+
+
+def sampler_orders(n_finishes, quick):
+    """completion orders: which of the unfinished jobs (index in creation order) the engine finishes next"""
+    orders = [(0,), (-1,), (1, 0), (0, -1), (2, 0, 1)]
+    if not quick:
+        orders += [(1,), (-1, 0, 0), (2, 1), (1, 1, 0), (3, 0)]
+    return orders
+
+
+def sampler_grid(quick):
+    """Fixed grid, every seed. Yields (stream, limit, jobs_per_batch, turns)."""
+    def finishes(order, count, per_turn=1, fail_every=0):
+        turns, k = [], 0
+        for i in range(0, count, per_turn):
+            turn = []
+            for _ in range(per_turn):
+                kind = 'fail' if fail_every and (k + 1) % fail_every == 0 else 'finish'
+                turn.append((kind, order[k % len(order)]))
+                k += 1
+            turns.append(turn)
+        return turns
+    orders = sampler_orders(0, quick)
+    # an index is taken modulo the number of unfinished jobs (-1 = the youngest)
+    for order in orders:
+        # run_batch_async of more circuits than the limit
+        for limit, n in ((1, 3), (2, 6), (3, 7)) + (() if quick else ((2, 9), (4, 6), (5, 12))):
+            for per_turn in (1, 2):
+                yield 'sampler_batch', limit, 1, [[('batch', n)]] + finishes(order, n, per_turn)
+        # ... batched several circuits per job
+        for limit, n, jpb in ((1, 5, 2), (2, 7, 3)):
+            yield 'sampler_batch', limit, jpb, [[('batch', n)]] + finishes(order, n)
+        # a Collector with a higher concurrency than the limit (and with a lower one)
+        for limit, conc, n in ((2, 5, 8), (1, 3, 4), (3, 2, 6)) + (() if quick else ((2, 4, 12), (3, 6, 9))):
+            for per_turn in (1, 2):
+                yield 'sampler_collector', limit, 1, [[('collect', conc, n)]] + finishes(order, n, per_turn)
+        # independent callers arriving over time (between the engine's completions), some of their jobs failing; two batches
+        for limit in (1, 2):
+            turns = [[('call',), ('call',), ('call',)]]
+            for i, t in enumerate(finishes(order, 7, 1, fail_every=3)):
+                turns += [t, [('call',)] if i < 4 else []]
+            yield 'sampler_calls', limit, 1, turns
+            yield 'sampler_calls', limit, 1, ([[('batch', 3)], [('batch', 2), ('call',)]] + finishes(order, 2) + [[('collect', 2, 3)]]
+                                              + finishes(order, 7))
+    # a caller arriving in the very turn in which a job completes while somebody waits for a slot (the witness of
+    # C20_limiter_bounded_needs_calm, and its neighbours)
+    for limit in (1, 2):
+        for waiting in (1, 2):
+            start = [('call',)] * (limit + waiting)
+            yield 'sampler_race', limit, 1, [start, [('finish', 0), ('call',)]]
+            yield 'sampler_race', limit, 1, [start, [('finish', 0), ('batch', 2)]]
+            yield 'sampler_race', limit, 1, [start, [('call',), ('finish', 0)]]
+
+
+def sampler_stream(ctx, mods):
+    rng = ctx.rng
+    quick = ctx.tier == 'quick'
+    cases = []
+
+    for stream, limit, jpb, turns in sampler_grid(quick):
+        c = run_sampler(mods, limit, turns, jobs_per_batch=jpb)
+        c['stream'] = stream
+        cases.append(c)
+    for _ in range(120 if quick else 2500):
+        limit = rng.choice([1, 1, 2, 2, 3, 4])
+        turns = [[rng.choice([('batch', rng.randint(1, 6)), ('collect', rng.randint(1, 5), rng.randint(1, 7)), ('call',)])
+                  for _ in range(rng.choice([1, 1, 2]))]]
+        for _ in range(rng.randint(2, 12)):
+            r = rng.random()
+            if r < 0.7:
+                turn = [(rng.choice(['finish'] * 5 + ['fail']), rng.choice([0, 0, 1, 2, -1])) for _ in range(rng.choice([1, 1, 1, 2, 3]))]
+            elif r < 0.9:
+                turn = [rng.choice([('call',), ('call',), ('batch', rng.randint(1, 4)), ('collect', rng.randint(1, 4), rng.randint(1, 5))])]
+            else:
+                turn = [(rng.choice(['finish', 'finish', 'fail']), rng.choice([0, 1, -1])), ('call',)]      # racing arrival
+            turns.append(turn)
+        c = run_sampler(mods, limit, turns, jobs_per_batch=rng.choice([1, 1, 1, 2, 3]))
+        c['stream'] = 'sampler_random'
+        cases.append(c)
+    for c in cases:
+        ncre = sum(1 for e in c['trace'] if e[0] == 'create')
+        ctx.count(c['stream'], (c['limit'], c['jobs_per_batch'], c['applied']), nontrivial=ncre > c['limit'],
+                  sample=dict(max_concurrent_jobs=c['limit'], jobs_per_batch=c['jobs_per_batch'], turns=c['applied'], trace=c['trace']))
+        for kind, what in sampler_oracles(c):
+            ctx.violation(f'sampler:{kind}', f'ProcessorSampler(max_concurrent_jobs={c["limit"]}, jobs_per_batch={c["jobs_per_batch"]}): '
+                          f'{what} [turns: {c["applied"]}]',
+                          dict(kind='sampler', limit=c['limit'], jobs_per_batch=c['jobs_per_batch'], turns=c['applied'], failed=kind))
+    for idx in sampler_compare(ctx, cases):
+        c = cases[idx]
+        ctx.mark_broken('correspondence:sampler',
+                        f'limiter model does not accept the run of ProcessorSampler(max_concurrent_jobs={c["limit"]}, '
+                        f'jobs_per_batch={c["jobs_per_batch"]}): turns={c["applied"]} trace={c["trace"]}')
+
+
+def replay_sampler(mods, data):
+    turns = [[tuple(a) for a in t] for t in data['turns']]
+    c = run_sampler(mods, data['limit'], turns, jobs_per_batch=data.get('jobs_per_batch', 1))
+    bad = sampler_oracles(c)
+    print('turns:', c['applied'])
+    print('trace:', c['trace'])
+    print('oracle failures:', bad)
+    return not bad
 
 
 # ======================================================================================================================
@@ -1602,7 +2151,17 @@ def run(ctx):
                 'step and vice versa. collector (2b) fixed grid, every seed: 2-4 jobs in flight x every success/failure assignment x '
                 'every completion order x every grouping of the completions into scheduler turns (cut after the first failing '
                 'turn), through collect_async and through collect(); the caller must receive the very exception object of a '
-                'failed job. distinct by canonical input')
+                'failed job. stream (A2/C2) fixed grids, every seed, both server flavours (the conflict reported when program and job '
+                'both exist: PROGRAM_ALREADY_EXISTS or JOB_ALREADY_EXISTS): the create request overtaken by 1-2 stream breaks is handled '
+                'late after 0..4 exchanges of the client\'s re-creation chain (one submit as fault sequence; 1-2 submits, own / shared '
+                'program, the other untouched / finished, then the undisturbed server), resubmission of an existing job; every '
+                'already-exists / does-not-exist reply that makes sense for its request must be followed by a right next request, '
+                'never by a StreamError. sampler: ProcessorSampler(max_concurrent_jobs=1..5, jobs_per_batch=1..3) in front of a model '
+                'processor whose jobs finish only when the driver says so: fixed grid x 5 (10) completion orders x 1-2 completions '
+                'per scheduler turn: run_batch_async of more circuits than the limit, a Collector with higher (and lower) concurrency '
+                'than the limit, independent run_async callers arriving between completions with failing jobs, several batches / '
+                'collectors sharing the sampler, and callers arriving in the very turn of a completion (sampler_race); plus random '
+                'turn lists; non-trivial = more jobs than the limit. distinct by canonical input')
     ctx.assumptions += ['duet scheduler ticked by hand: completions are applied only when no task is ready (quiescent points)',
                         'the fake Sampler returns duet futures completed by the driver; results are integers',
                         'StreamManager runs on an asyncio loop that only the driver turns (AsyncioExecutor.submit unchanged, no thread); '
@@ -1614,6 +2173,10 @@ def run(ctx):
                         'the next batch whenever no task is ready',
                         'fake Quantum Engine: creation refused when the program/job exists, GetQuantumResult answers '
                         'JOB_DOES_NOT_EXIST whenever the job is missing; StreamError.message carries the code name',
+                        'ProcessorSampler: the model processor creates a job synchronously inside run_sweep_async; a job\'s '
+                        'results_async() completes only when the driver finishes the job at a quiescent point of the hand-ticked duet '
+                        'scheduler; only jobs of independent run_async callers are made to fail (a failing job of a batch / Collector '
+                        'cancels its siblings, whose engine jobs are then orphaned: outside the statement)',
                         'the fake stream keeps draining the old request iterator until the None sentinel (as the upstream test fake '
                         'does); behaviour of the real gRPC layer is not modelled']
     err = tables.regenerate(['RetryTable'])
@@ -1622,6 +2185,7 @@ def run(ctx):
     ctx.set_obligations(coq.compile_props('C20'))
     collector_stream(ctx, cirq)
     stream_streams(ctx, mods)
+    sampler_stream(ctx, mods)
 
 
 def replay(ctx, data):
@@ -1636,5 +2200,7 @@ def replay(ctx, data):
         return c['status'][0] != 'halted' or abs(c['energy'] - 2.25) < 1e-9
     if data.get('kind') in ('stream', 'stream_faults'):
         return replay_stream(mods, data)
+    if data.get('kind') == 'sampler':
+        return replay_sampler(mods, data)
     print('nothing to replay for kind', data.get('kind'))
     return False
